@@ -48,7 +48,7 @@ let () =
            Printf.printf "R%d:" i;
            List.iter (fun (e : entry) -> Printf.printf " %d,%d,%d" (kind_code e.e_kind) (opt_int e.e_arg) (if e.e_sr then 1 else 0)) (List.nth tb i);
            print_string "\n") sts;
-         if Array.length Sys.argv > 2 then Printf.printf "VALID %b SOUND %b NOERR %b\n" (validate g (List.map (fun (s : lrstate) -> s.st_all) sts) tb) (validate_sound g (List.map (fun (s : lrstate) -> s.st_all) sts) tb) (no_error_symbol g (List.map (fun (s : lrstate) -> s.st_all) sts) tb);
+         if Array.length Sys.argv > 2 then Printf.printf "VALID %b SOUND %b NOERR %b\n" (validate g (List.map (fun (s : lrstate) -> s.st_all) sts) tb) (validate_sound g (List.map (fun (s : lrstate) -> s.st_all) sts) tb) (no_error_symbol g tb);
          let d = diag_text nm g sts tb in
          Printf.printf "DIAG %d\n%s\nENDDIAG\n" (String.length d) d;
          if List.exists (List.exists (fun (e : entry) -> e.e_kind = KRR)) tb then print_string "INPUTS skipped-rr\n" else
@@ -73,19 +73,26 @@ let () =
            let rule_f r c args = let r = int_of_nat r in
              ((if r < Array.length ctxf && ctxf.(r) then r :: c else c), Printf.sprintf "r%d(%s)" r (String.concat "," args)) in
            let fuel = nat_of_int (200 * (String.length inp.bytes + 10) + 5000) in
+           let calls = ref [] in
+           let lexer' v p rest = calls := (String.length inp.bytes - List.length rest) :: !calls; lexer v p rest in
            let go verbose =
              let opts = { o_verbose = verbose; o_skip_ws = inp.skipws; o_skip_nl = inp.skipnl } in
-             run g tb opts buf None lexer term_f err_f rule_f fuel [] in
+             calls := [];
+             run g tb opts buf None lexer' term_f err_f rule_f fuel [] in
            let res_str r = match r with
              | Accept v -> "VALUE " ^ v | Reject -> "NONE" | Throw -> "THROW cvector capacity exceeded"
              | Crash c -> "CRASH " ^ crash_str c | OutOfFuel -> "FUEL" in
            let ((r1, s1), tr1) = go inp.verbose in
            Printf.printf "RES %s\n" (res_str r1);
            print_string "CTX"; List.iter (fun x -> Printf.printf " %d" x) (List.rev s1.ps_ctx); print_string "\n";
+           print_string "LEXCALLS"; (if !lexkind = 0 then List.iter (fun x -> Printf.printf " %d" x) (List.rev !calls)); print_string "\n";
            let e = String.concat "" (List.map (event_str nm g inp.bytes) tr1) in
            Printf.printf "ERR %d\n%s\nENDERR\n" (String.length e) e;
-           let ((r2, _), _) = go (not inp.verbose) in
-           Printf.printf "RES2 %s\n" (res_str r2)) (List.rev !inputs));
+           let ((r2, _), tr2) = go (not inp.verbose) in
+           Printf.printf "RES2 %s\n" (res_str r2);
+           let e2 = String.concat "" (List.map (event_str nm g inp.bytes) tr2) in
+           Printf.printf "ERR2 %d\n%s\nENDERR2\n" (String.length e2) e2;
+           Printf.printf "RES3 %s\n" (res_str r1)) (List.rev !inputs));
     print_string "ENDCASE\n"
   in
   (try
